@@ -276,6 +276,10 @@ pub fn def() -> PropDef {
         id: "C19",
         rule: "sub replies: a model tracker reply (interval, 0-30 peer entries mixing well-formed dictionaries - UTF-8 ip, 20-byte id, port 0..65535 - with malformed ones: missing key, wrong type, 0/1/19/21/40-byte id, negative port, non-UTF-8 ip, non-dictionary; extra keys, rotated key order, optional UTF-8 failure reason, optional trailing values) written by the reference writer; oracle: no panic, peers() == the well-formed entries in order as ip:port with ids, failure reason => Err(TrackerRespFail(reason)). Sub totality: mutated replies and arbitrary bytes never panic. Sub faults: see DESIGN.md C19(b). Non-trivial (replies) = a malformed entry between two good ones or a failure reason; distinct by hash of the case.",
         assumptions: &["ports above 65535 and non-UTF-8 failure reasons are not generated (the property does not say how they are read)"],
-        subs: parse_subs(),
+        subs: {
+            let mut s = parse_subs();
+            s.push(crate::e2e::c19_faults_sub());
+            s
+        },
     }
 }
